@@ -16,7 +16,7 @@ struct SkpHeader {
     #[br(count = 4)]
     #[bw(pad_size_to = 4)]
     #[bw(map = |x : &String | x.as_bytes())]
-    #[br(map = | x: Vec<u8> | String::from_utf8(x).unwrap().trim_matches(char::from(0)).to_string())]
+    #[br(try_map = | x: Vec<u8> | String::from_utf8(x).map(|s| s.trim_matches(char::from(0)).to_string()))]
     pub version: String,
 }
 
